@@ -53,6 +53,14 @@ func c13Repr(n any) string {
 		return strconv.FormatFloat(v, 'f', -1, 64)
 	case []byte:
 		return string(v)
+	case uint64:
+		return strconv.FormatUint(v, 10)
+	case int64:
+		return strconv.FormatInt(v, 10)
+	case uint32:
+		return strconv.FormatUint(uint64(v), 10)
+	case bool:
+		return strconv.FormatBool(v)
 	}
 	panic("unknown node kind")
 }
@@ -105,6 +113,25 @@ func c13Keys(n int, seed int64) []string {
 		ks[i] = fmt.Sprintf("key-%d-%d", seed, i)
 	}
 	return ks
+}
+
+// c13TypedKeys: lookup keys that are not strings. A key of any dynamic type is looked up
+// through its textual representation like a node is, so ids, counters, structs, Stringers
+// and byte slices are keys like any other.
+func c13TypedKeys(seed int64) []any {
+	var ks []any
+	for i := 0; i < 60; i++ {
+		base := uint64(seed)*1000003 + uint64(i)*7919
+		ks = append(ks,
+			uint64(i), base, uint64(1)<<40+base, ^uint64(0)-uint64(i), // small ids, mid-range, snowflake-like, near the top
+			int64(base), -int64(i)-1, int(i)+1000000, uint32(base),
+			[]byte(fmt.Sprintf("blob-%d-%d", seed, i)),
+			c13StructNode{Host: fmt.Sprintf("k%d", i), Port: int(seed)},
+			&c13StringerNode{name: fmt.Sprintf("key-%d-%d", seed, i)},
+			float64(i)+0.5,
+		)
+	}
+	return append(ks, true, false)
 }
 
 func c13MakeNodes(r interface{ Intn(int) int }, n int, salt int) []any {
@@ -171,16 +198,17 @@ func c13Effective(op c13Op, R int) int {
 }
 
 func TestVerifC13Ring(t *testing.T) {
-	m := vk.New(t, "C13", "seeded membership histories (20-40 ops of Add/AddWithWeight/AddWithReplicas/Remove over 2-7 nodes: strings, structs, Stringers, ints, floats, pointers to structs; weights 0..150, replicas 0..150) observed through Get over a fixed population of 2000 keys after every operation: membership/totality, determinism, minimal disruption on Remove and Add, equality with a reference ring (and with a freshly built ring) after re-weighting, weight-0 owns nothing, share ~ weight; non-trivial = at least one key changed owner")
+	m := vk.New(t, "C13", "seeded membership histories (20-40 ops of Add/AddWithWeight/AddWithReplicas/Remove over 2-7 nodes: strings, structs, Stringers, ints, floats, pointers to structs; weights 0..150, replicas 0..150) observed through Get over a fixed population of 2000 string keys (plus ~720 keys of other dynamic types: uint64/int64/int/uint32 ids, byte slices, structs, Stringers, floats, bools, each looked up through its representation) after every operation: membership/totality, determinism, minimal disruption on Remove and Add, equality with a reference ring (and with a freshly built ring) after re-weighting, weight-0 owns nothing, share ~ weight; non-trivial = at least one key changed owner")
 	defer m.Done()
 	n := vk.N(200, 5000)
 	r := m.Rand("ring")
-	var moved, ops, collisions int64
+	var moved, ops, collisions, typedLookups int64
 	ratioMin, ratioMax := math.Inf(1), math.Inf(-1)
 	for idx := 1; idx <= n; idx++ {
 		nn := 2 + r.Intn(6)
 		nodes := c13MakeNodes(r, nn, idx)
 		keys := c13Keys(2000, int64(idx%7))
+		typed := c13TypedKeys(int64(idx % 7))
 		nops := 20 + r.Intn(21)
 		var hist []c13Op
 		for i := 0; i < nops; i++ {
@@ -333,6 +361,28 @@ func TestVerifC13Ring(t *testing.T) {
 			if m.ViolCount() > v0 {
 				break
 			}
+			// keys of other dynamic types: the owner is the reference ring's owner of the key's representation
+			for _, k := range typed {
+				var got any
+				var ok bool
+				if pv, panicked := vk.Recover(func() { got, ok = ch.Get(k) }); panicked {
+					m.Violate("C13:get-panic", desc(), "%s: Get(%T %v) panicked: %v", where, k, k, pv)
+					break
+				}
+				gi := -1
+				if ok {
+					gi = index(got)
+				}
+				want, wok := ring.get(c13Repr(k))
+				if wok != ok || (ok && want != gi) {
+					m.Violate("C13:differs-from-reference-ring:typed-key", desc(), "%s: Get(%T %v) -> node %d (present=%v), reference ring looked up with the key's representation %q -> node %d (present=%v)", where, k, k, gi, ok, c13Repr(k), want, wok)
+					break
+				}
+				typedLookups++
+			}
+			if m.ViolCount() > v0 {
+				break
+			}
 			// proportionality: only when every member has >= 30 virtual nodes
 			total, minV := 0, 1<<30
 			for _, v := range replicas {
@@ -372,6 +422,7 @@ func TestVerifC13Ring(t *testing.T) {
 	}
 	m.Count("membership_ops", ops)
 	m.Count("key_moves_observed", moved)
+	m.Count("lookups_with_non_string_keys", typedLookups)
 	m.Count("histories_cut_at_ring_collision", collisions)
 	m.Extra("share_ratio_observed_min_max", []float64{ratioMin, ratioMax})
 }
